@@ -31,6 +31,9 @@ Inductive hop :=
 | HWorker
 | HWRelease (w : nat)
 | HWPanic (w : nat)                                 (* let worker w's body panic *)
+| HRelStop (i : nat)                                (* the body of task i calls Stop itself (a further Stop
+                                                       call, made while one is in progress), then returns *)
+| HWRelStop (w : nat)                               (* the same for worker w *)
 | HAddCloser
 | HWithCancel (onq : bool)
 | HCancelFn (x : nat)
@@ -49,6 +52,7 @@ Definition op_label (o : hop) : label :=
   | HWorker => LWorkerStart
   | HWRelease w => LWorkerBodyEnd w
   | HWPanic w => LWorkerBodyEnd w       (* stop.Done() is deferred: same path *)
+  | HRelStop _ | HWRelStop _ => LCallStop   (* first half, see [apply_op] *)
   | HAddCloser => LAddCloser
   | HWithCancel q => LWithCancel q
   | HCancelFn x => LCancelFn x
@@ -115,10 +119,22 @@ Fixpoint advance (fuel : nat) (s : st) : st :=
 
 Definition fuel0 : nat := 4000.
 
-Definition apply_op (s : st) (o : hop) : option st :=
-  match step s (op_label o) with
+Definition apply_label (s : st) (l : label) : option st :=
+  match step s l with
   | Next s' => Some (advance fuel0 s')
   | _ => None
+  end.
+
+(** One harness operation = one label of the environment followed by every
+    enabled internal step; a body that calls Stop before it returns is two:
+    the Stop call (which runs as far as it can), then the end of the body. *)
+Definition apply_op (s : st) (o : hop) : option st :=
+  match o with
+  | HRelStop i =>
+      match apply_label s LCallStop with Some s1 => apply_label s1 (LBodyEnd i) | None => None end
+  | HWRelStop w =>
+      match apply_label s LCallStop with Some s1 => apply_label s1 (LWorkerBodyEnd w) | None => None end
+  | _ => apply_label s (op_label o)
   end.
 
 (** * Observations *)
